@@ -6,7 +6,10 @@ relpath -> None (folder) | str (content token of a file).
 """
 from collections import Counter
 
+import os
+
 NAMES = ("a", "b", "c", "d", "e")
+DEFAULT_HAZARDS = ("PATH_REUSE", "DIRMOVE_ISOLATED", "DIRMOVE_TOMB", "XSIDE")
 MAX_DEPTH = 3
 
 
@@ -166,8 +169,11 @@ class World:
         self.retired = set()        # paths consumed by conflict gadgets: never touched again
         self.ncontent = 0
         self.excluded = Counter()
-        self.hazards = set(hazards if hazards is not None else
-                           ("PATH_REUSE", "DIRMOVE_ISOLATED", "DIRMOVE_TOMB", "XSIDE"))
+        if hazards is None:
+            hazards = DEFAULT_HAZARDS
+            if os.environ.get("VERIF_HAZARDS") is not None:      # triage only (tools/triage.py); never set by ./check
+                hazards = [h for h in os.environ["VERIF_HAZARDS"].split(",") if h]
+        self.hazards = set(hazards)
 
     def new_content(self, size=None):
         self.ncontent += 1
@@ -240,6 +246,51 @@ class World:
             self.ever_deleted[s] |= vac
         if op == "rename" and Wpre:
             win.dirmoves.append((s, a[0], a[1]))
+
+    def apply_gadget_op(self, s, op, *a):
+        """Conflict-gadget op: applied to that side's tree only; every path it touches is retired
+        (never touched again), so the merged outcome need not be modelled."""
+        tree = self.side[s]
+        W, R, Wpre, vac, occ = touch_sets(tree, op, *a)
+        tree.apply(op, *a)
+        self.retired |= W
+        win = self.win
+        win.W[s] |= W
+        win.R[s] |= R
+        win.nops[s] += 1
+
+    def settled_untouched(self, p):
+        """p exists on both sides with equal value and nobody touched it (or its ancestors' names) this window."""
+        win = self.win
+        for sd in (0, 1):
+            if p in win.W[sd]:
+                return False
+            for pre in win.Wpre[sd]:
+                if under(p, pre):
+                    return False
+            for (_s, old, new) in win.dirmoves:
+                if under(p, old) or under(p, new):
+                    return False
+        for r in self.retired:
+            if under(p, r) or under(r, p):
+                return False
+        return self.side[0].exists(p) and self.side[1].exists(p) and self.side[0].t.get(p) == self.side[1].t.get(p)
+
+    def free_new_path(self, p):
+        """p is absent on both sides, its parent is a settled untouched folder (or the root), nothing touched p."""
+        par = parent(p)
+        if par and not (self.settled_untouched(par) and self.side[0].is_dir(par)):
+            return False
+        if self.side[0].exists(p) or self.side[1].exists(p):
+            return False
+        win = self.win
+        for sd in (0, 1):
+            if p in win.W[sd] or p in win.vac[sd] or p in win.R[sd]:
+                return False
+        for r in self.retired:
+            if under(p, r) or under(r, p):
+                return False
+        return True
 
     def settle(self):
         """Both sides are assumed equal to the merged tree after a quiet settle."""
